@@ -43,6 +43,7 @@ def build_model():
     gen = os.path.join(EXTRACT, "gen")
     os.makedirs(gen, exist_ok=True)
     exe = os.path.join(gen, "fit_driver")
+    coq_build(["Arith", "FitModel"])       # the imported modules, compiled against the current sources
     deps = [os.path.join(EXTRACT, "Extract_fit.v"), os.path.join(EXTRACT, "fit_driver.ml"),
             os.path.join(COQDIR, "theories", "FitModel.vo"), os.path.join(COQDIR, "theories", "Arith.vo")]
     key = sha_of_sources(deps)
